@@ -68,6 +68,34 @@ def gen_cases(rng, tier):
         cases.append(("hair_px", [rng.choice([0, 1, 2]), int(aa), width, w, h, 0] + list(IDENT) + ops))
     # whole fills (the C02 generator: multi-contour paths with open sub-paths, retraced edges, shapes leaving through the
     # borders, tile seams): a pixel farther than the band from the outline and outside the shape must keep its bytes
+    # thick strokes: the footprint is the bounding box grown by width/2 x max(1, miter limit, sqrt 2 for square caps) + 1
+    for i in range(300 if tier == "quick" else 4000):
+        w, h = rng.choice([(64, 64), (100, 100), (140, 140)])
+        width = rng.choice([2.0, 6.0, 12.0, 20.0, 40.0])
+        miter = rng.choice([1.0, 1.05, 1.2, 1.4, 1.42, 2.0, 4.0, 10.0])
+        join, cap = rng.randrange(4), rng.randrange(3)
+        m = width * max(1.0, miter if join < 2 else 1.0) / 2 + 4
+        if i % 3 == 0:
+            # exact right angles, not axis-aligned: on a diagonal grid
+            cx, cy = w / 2, h / 2
+            L = rng.choice([10.0, 20.0, 30.0])
+            pts = [(cx - L, cy - L * 0), (cx, cy + L), (cx + L, cy)] if rng.random() < 0.5 else [(cx - L, cy), (cx, cy - L), (cx + L, cy), (cx, cy + L)]
+            pts = [(x, y - L / 2) for x, y in pts]
+        else:
+            pts = [(rng.uniform(m, w - m), rng.uniform(m, h - m)) for _ in range(rng.randint(2, 5))] if m * 2 < min(w, h) - 4 else [(w / 2 - 5, h / 2), (w / 2 + 5, h / 2)]
+        from .geomgen import poly_ops as _po
+        cases.append(("stroke_fp", [int(width * 1000), int(miter * 1000), join, cap, i % 2, w, h] + _po(pts, close=rng.random() < 0.3, grid=16.0)))
+    # cubics with a point beyond +-2^22 (the clipper falls back to the chord): nothing may be painted right of / below the path
+    for i in range(30 if tier == "quick" else 300):
+        w, h = 100, 100
+        far = rng.choice([-5e6, -1e7, -4.3e6])
+        x0 = rng.choice([50.0, 30.0, 70.0])
+        ya, yb, yc, yd = sorted(rng.uniform(5, 95) for _ in range(4))
+        if i % 2 == 0:
+            ops = [0, f2b(x0), f2b(ya), 3, f2b(far), f2b(yb), f2b(far), f2b(yc), f2b(x0), f2b(yd), 4]
+        else:
+            ops = [0, f2b(ya), f2b(x0), 3, f2b(yb), f2b(far), f2b(yc), f2b(far), f2b(yd), f2b(x0), 4]
+        cases.append(("fill_px", [i % 2, 0, 0, w, h, 0, w, 750, 0] + list(IDENT) + ops))
     allfills = [c for c in _c02.gen_cases(rng, tier) if c[0] == "fill_px"]
     fills = [c for c in allfills if c[1][3] <= 200]
     cases += fills[:450 if tier == "quick" else 6000]
@@ -84,6 +112,11 @@ def oracle(suite, args, out):
         # (a painted pixel inside the bounding box but outside the shape is C02's / C03's subject, not a footprint violation)
         if len(o) >= 11 and o[8] > 0:
             return "a fill changed %d pixels outside the bounding box of the shape (first (%d,%d)): bytes outside the footprint" % (o[8], o[9], o[10])
+        return None
+    if suite == "stroke_fp":
+        o = ints(out)
+        if len(o) >= 4 and o[1] > 0:
+            return "a stroke changed %d pixels outside the bounding box of the path grown by the stroke outset and one pixel (first (%d,%d)): bytes outside the footprint" % (o[1], o[2], o[3])
         return None
     if suite == "hair_px":
         o = ints(out)
@@ -107,6 +140,8 @@ def oracle(suite, args, out):
 
 
 def relation(suite, args, mo, io):
+    if suite == "stroke_fp":
+        return mo.strip() == "-9"
     if suite == "hair_px":
         return mo.strip() == "-9"
     if suite == "fill_px":
@@ -115,6 +150,9 @@ def relation(suite, args, mo, io):
 
 
 def nontrivial_tag(suite, args, out):
+    if suite == "stroke_fp":
+        o = out.split()
+        return "stroke-fp" if len(o) >= 4 and o[0].isdigit() and int(o[0]) > 0 else None
     if suite == "fill_px":
         o = out.split()
         return "fill" if len(o) >= 3 and o[0].isdigit() and int(o[0]) > 0 else None
